@@ -89,7 +89,7 @@ fn extra_workspaces() -> Vec<Ws> {
         // usefixtures / pytestmark / indirect usages count as usages
         Ws { files: vec![
             FileSpec::new("conftest.py", vec![Item::fixture("a", &[]), Item::fixture("b", &[]), Item::fixture("c", &[]), Item::fixture("d", &[])]),
-            FileSpec::new("test_m.py", vec![Item::Pytestmark { names: vec!["a".into()] }, Item::Test { name: "u".into(), params: vec![], usefixtures: vec!["b".into()], indirect: vec![] }, Item::Test { name: "i".into(), params: vec!["c".into()], usefixtures: vec![], indirect: vec!["c".into()] }]),
+            FileSpec::new("test_m.py", vec![Item::Pytestmark { names: vec!["a".into()] }, Item::Test { name: "u".into(), params: vec![], usefixtures: vec!["b".into()], indirect: vec![], indirect_above: false }, Item::Test { name: "i".into(), params: vec!["c".into()], usefixtures: vec![], indirect: vec!["c".into()], indirect_above: false }]),
         ] },
         // a name defined twice in one file (the first definition is shadowed)
         Ws { files: vec![
